@@ -38,6 +38,8 @@ type scenario struct {
 	// which thread 0 stalls forever at k while the others run on.
 	StallThread0 bool
 	stallAt      int
+	// StallBound: deviation bound for the other threads in the stall executions (default 0).
+	StallBound int
 	// Env adds an environment thread performing these cache/clock events, one per step.
 	Env []string
 	// Props this scenario serves.
@@ -53,6 +55,11 @@ type execEnv struct {
 	final    txn.Dump
 	cold     txn.Dump
 	followup *txn.Record
+	// C15: lock keys each thread was granted (thread -> key name -> the LockKey with its lock id)
+	granted map[int]map[string]*sop.LockKey
+	// C15: item lock records each thread wrote (thread -> cache key -> lock id in the record)
+	itemLocks map[int]map[string]string
+	leaked  []string
 	// C37 monitor: registry block images and install events
 	blocks   map[string][]byte
 	installs map[string]map[string]int // "<lid>@<version>" -> active physical id -> installing thread
@@ -124,6 +131,38 @@ func mkScenario(sc *scenario) *sched.Scenario {
 			if monitorC37 {
 				installMonitor(x, env)
 			}
+			if sc.StallThread0 {
+				env.granted = map[int]map[string]*sop.LockKey{}
+				sopenv.L2.OnLocked = func(keys []*sop.LockKey) {
+					tid := x.CurrentID()
+					if env.granted[tid] == nil {
+						env.granted[tid] = map[string]*sop.LockKey{}
+					}
+					for _, k := range keys {
+						env.granted[tid][k.Key] = &sop.LockKey{Key: k.Key, LockID: k.LockID}
+					}
+				}
+				// item locks are records {LockID, Action} written with SetStructs under FormatLockKey(item id)
+				env.itemLocks = map[int]map[string]string{}
+				lockPrefix := sopenv.L2.FormatLockKey("")
+				sopenv.L2.OnSet = func(keys []string, values []interface{}) {
+					tid := x.CurrentID()
+					for i, k := range keys {
+						if !strings.HasPrefix(k, lockPrefix) || i >= len(values) {
+							continue
+						}
+						b, _ := json.Marshal(values[i])
+						var rec struct{ LockID sop.UUID }
+						if json.Unmarshal(b, &rec) != nil || rec.LockID.IsNil() {
+							continue
+						}
+						if env.itemLocks[tid] == nil {
+							env.itemLocks[tid] = map[string]string{}
+						}
+						env.itemLocks[tid][k] = rec.LockID.String()
+					}
+				}
+			}
 			var specs []sched.ThreadSpec
 			if len(sc.Seq) > 0 {
 				idx := 0
@@ -172,6 +211,43 @@ func mkScenario(sc *scenario) *sched.Scenario {
 		Teardown: func(x *sched.Execution) {
 			env := x.Env.(*execEnv)
 			if sc.StallThread0 {
+				// C15 "a transaction that gives up releases its locks": a lock granted to a thread whose
+				// transaction has ended by itself (committed, failed or gave up; not stalled) must be gone
+				// from the lock service the moment the execution ends (no clock advance).
+				sopenv.L2.OnLocked = nil
+				sopenv.L2.OnSet = nil
+				for tid, recs := range env.itemLocks {
+					if tid >= len(env.recs) || env.recs[tid] == nil || x.Threads[tid].Stalled {
+						continue
+					}
+					var ks []string
+					for k := range recs {
+						ks = append(ks, k)
+					}
+					sort.Strings(ks)
+					for _, k := range ks {
+						var rec struct{ LockID sop.UUID }
+						if found, _ := sopenv.L2.Inner().GetStruct(sopenv.Bg, k, &rec); found && rec.LockID.String() == recs[k] {
+							env.leaked = append(env.leaked, fmt.Sprintf("%s still holds item lock %s", env.recs[tid].Prog.Name, "item#"+fmt.Sprint(len(env.leaked))))
+						}
+					}
+				}
+				for tid, keys := range env.granted {
+					if tid >= len(env.recs) || env.recs[tid] == nil || x.Threads[tid].Stalled {
+						continue
+					}
+					var names []string
+					for n := range keys {
+						names = append(names, n)
+					}
+					sort.Strings(names)
+					for _, n := range names {
+						k := keys[n]
+						if ok, _ := sopenv.L2.Inner().IsLocked(sopenv.Bg, []*sop.LockKey{{Key: k.Key, LockID: k.LockID}}); ok {
+							env.leaked = append(env.leaked, fmt.Sprintf("%s still holds %s", env.recs[tid].Prog.Name, n))
+						}
+					}
+				}
 				// C15: once the budget (= lock TTL) of a stalled or failed transaction has elapsed, a later
 				// transaction on the same keys must be able to commit.
 				mt := sc.MaxTime
@@ -377,7 +453,7 @@ func worker(run *ev.Run, prop string, sc *scenario, shard, shards int, thorough 
 		for k := 1 + shard; k <= n0; k += shards {
 			c := *sc
 			c.stallAt = k
-			e := &sched.Explorer{Sc: mkScenario(&c), Bound: 0, Shards: 1, Deadline: deadline}
+			e := &sched.Explorer{Sc: mkScenario(&c), Bound: sc.StallBound, Shards: 1, Deadline: deadline}
 			e.Check = func(x *sched.Execution, schedule []int) {
 				outcomes[outcomeOf(x)]++
 				checkExecution(run, prop, &c, x, schedule)
@@ -571,9 +647,7 @@ func checkExecution(run *ev.Run, prop string, sc *scenario, x *sched.Execution, 
 					viol("duplicate-key", fmt.Sprintf("store %s holds key %d twice: %v", s.Name, kv[i].K, kv))
 				}
 			}
-			if int64(len(kv)) != env.cold.Counts[s.Name] {
-				viol("count-mismatch", fmt.Sprintf("store %s count=%d items=%d", s.Name, env.cold.Counts[s.Name], len(kv)))
-			}
+			// (the store's count is C06's subject, not judged here)
 		}
 	case "C06":
 		for _, s := range sc.Stores {
@@ -763,6 +837,46 @@ func rootCause(trace []string) string {
 					}
 				}
 				break
+			}
+		}
+	}
+	// navigated-node-superseded: thread A fetched the handle of a node (GetStructs <logical id>), another thread's
+	// commit then installed a new version of that node (its SetStruct <logical id> after a registry block write),
+	// A never fetched that handle again and still went on to its own phase 2 (priority log written): A used a
+	// node version that was superseded before A committed and that nothing re-validated (nodes a transaction
+	// only navigates through are not version-checked at commit).
+	for i, e := range es {
+		if e.class != "l2" || !strings.HasPrefix(e.label, "GetStructs ") {
+			continue
+		}
+		for _, lid := range strings.Split(strings.TrimPrefix(e.label, "GetStructs "), ",") {
+			if len(lid) != 36 {
+				continue
+			}
+			sup := -1
+			for j := i + 1; j < len(es); j++ {
+				if es[j].tid != e.tid && es[j].class == "l2" && es[j].label == "SetStruct "+lid && es[j].exec > e.exec {
+					sup = j
+					break
+				}
+			}
+			if sup < 0 {
+				continue
+			}
+			refetched, committed := false, false
+			for j := sup + 1; j < len(es); j++ {
+				if es[j].tid != e.tid {
+					continue
+				}
+				if es[j].class == "l2" && (strings.HasPrefix(es[j].label, "GetStructs ") || strings.HasPrefix(es[j].label, "GetStruct ")) && strings.Contains(es[j].label, lid) && !strings.Contains(es[j].label, "N"+lid) {
+					refetched = true
+				}
+				if es[j].class == "file" && strings.HasPrefix(es[j].label, "WriteFile ") && strings.HasSuffix(es[j].label, ".plg") {
+					committed = true
+				}
+			}
+			if committed && !refetched {
+				return "navigated-node-superseded"
 			}
 		}
 	}
@@ -1031,7 +1145,7 @@ func replay(prop, path string, scs []*scenario) {
 	for i, t := range first.Trace {
 		tid := strings.SplitN(t, ":", 2)[0]
 		key := strings.Contains(t, ".plg") || strings.Contains(t, "WriteAt") || strings.Contains(t, "storeinfo")
-		if tid != prevTid || key {
+		if tid != prevTid || key || os.Getenv("VERIF_REPLAY_FULL") != "" {
 			fmt.Printf("%4d %s\n", i, re.Replace(t))
 		}
 		prevTid = tid
@@ -1117,6 +1231,15 @@ func checkC15(viol func(kind, detail string), sc *scenario, x *sched.Execution, 
 		if d > mt+eps {
 			viol("commit-overran-budget", fmt.Sprintf("%s: Commit took %v of virtual time, budget maxTime=%v (+%v); result: committed=%v err=%q; stalled thread 0 at point %d", r.Prog.Name, d, mt, eps, r.Committed, r.EndErr, sc.stallAt))
 		}
+	}
+	if len(env.leaked) > 0 {
+		var ended []string
+		for i, r := range env.recs {
+			if r != nil && !x.Threads[i].Stalled {
+				ended = append(ended, fmt.Sprintf("%s committed=%v err=%q", r.Prog.Name, r.Committed, r.EndErr))
+			}
+		}
+		viol("lock-not-released-by-ended-transaction", fmt.Sprintf("when the execution ended (no further clock advance) the lock service still held, unexpired: %v; transactions that had ended by themselves: %v (stalled thread 0 at point %d)", env.leaked, ended, sc.stallAt))
 	}
 	// "A transaction that gives up releases its locks": judged only when every transaction ended by itself
 	// (a holder that stalls forever is a crashed transaction; what it leaves behind is C09's subject).
@@ -1217,6 +1340,15 @@ func checkC12(viol func(kind, detail string), sc *scenario, env *execEnv) {
 		for _, r := range env.recs {
 			if r == nil || !r.Committed {
 				continue
+			}
+			creator := false
+			for _, o := range r.Prog.Ops {
+				if o.Store == ns.Name {
+					creator = true
+				}
+			}
+			if !creator {
+				continue // a committed transaction that never touched the new store says nothing about it
 			}
 			committed++
 			for _, res := range r.Results {
